@@ -1,89 +1,153 @@
 package main
 
 import (
-	"go/token"
+	"fmt"
 	"go/types"
 
 	"golang.org/x/tools/go/ssa"
 )
 
-// Scripted network endpoints: behaviour per (network, address) is a symbolic variable.
-//   0 answers "OK", 1 dial refused, 2 read error after connect, 3 answers "ER" (a KRB-ERROR)
+// Scripted network endpoints (stub set "netstub").  The behaviour of every (transport, address)
+// endpoint is a symbolic variable:
+//   0 answers (the reply is an opaque byte; whether it decodes as a KRB-ERROR is the decoder stub's choice)
+//   1 refuses the connection (dial error for TCP, read error for UDP)
+//   2 accepts and then closes / stays silent: the first read fails
+//   3 TCP only: announces more bytes than it sends and closes mid-body
+// The native replay starts real listeners on 127.0.0.1 that behave the same way (zzverif.Endpoint).
 
 type connObj struct {
+	tcp   bool
+	addr  string
 	beh   *Term
+	reply []*Term
+	hdr   []*Term // TCP: the 4-byte length header the peer sends
 	reads int
 }
 
-var addrType = types.NewNamed(types.NewTypeName(token.NoPos, fakePkg, "Addr", nil), types.NewStruct(nil, nil), nil)
+type endpointState struct {
+	addr          string
+	tcpBeh, udpBeh *Term
+	reply         []*Term
+	hdr           []*Term
+}
+
+// EndpointRec is an endpoint's behaviour under a model.
+type EndpointRec struct {
+	Addr  string `json:"addr"`
+	TCP   int    `json:"tcp"`
+	UDP   int    `json:"udp"`
+	Reply string `json:"reply"` // hex
+	Hdr   string `json:"hdr"`   // hex, 4 bytes
+}
+
+func (r *Run) endpoint(addr string) *endpointState {
+	for _, e := range r.endpoints {
+		if e.addr == addr {
+			return e
+		}
+	}
+	// the reply identifies the endpoint (two bytes: marker, endpoint number)
+	var num uint64
+	fmt.Sscanf(addr, "k%d:", &num)
+	e := &endpointState{addr: addr, tcpBeh: r.hvar(8), udpBeh: r.hvar(8), reply: []*Term{BVu(0x6b, 8), BVu(num, 8)}}
+	r.addPC(ULe(e.tcpBeh, BVu(3, 8)))
+	r.addPC(ULe(e.udpBeh, BVu(2, 8)))
+	if r.param("tcphdr", 0) == 1 {
+		// the peer announces an arbitrary length (C04: allocation from a peer-supplied length)
+		e.hdr = []*Term{r.hvar(8), r.hvar(8), r.hvar(8), r.hvar(8)}
+	} else {
+		e.hdr = []*Term{BVu(0, 8), BVu(0, 8), BVu(0, 8), BVu(2, 8)}
+	}
+	r.endpoints = append(r.endpoints, e)
+	return e
+}
+
+func (r *Run) evalEndpoints() []EndpointRec {
+	var out []EndpointRec
+	hexOf := func(ts []*Term) string {
+		s := ""
+		for _, t := range ts {
+			s += fmt.Sprintf("%02x", r.sol.Value(t).Uint64())
+		}
+		return s
+	}
+	for _, e := range r.endpoints {
+		out = append(out, EndpointRec{Addr: e.addr, TCP: int(r.sol.Value(e.tcpBeh).Int64()), UDP: int(r.sol.Value(e.udpBeh).Int64()), Reply: hexOf(e.reply), Hdr: hexOf(e.hdr)})
+	}
+	return out
+}
 
 func (e *Engine) registerNet() {
-	in := e.intrinsics
-	errv := func(r *Run, fr *Frame, msg string) Value {
-		en := r.eng.prog.ImportedPackage("errors").Func("New")
-		return r.callFn(fr, en, []Value{concStr(msg)}, lbl("net"))
-	}
+	ns := func(name string, f intrinsic) { e.intrinsics["netstub:"+name] = f }
 	netT := func(r *Run, name string) types.Type {
 		return types.NewPointer(r.eng.prog.ImportedPackage("net").Type(name).Type())
 	}
-	behOf := func(r *Run, network, addr string) *Term {
-		k := "beh:" + network + ":" + addr
-		if v, ok := r.ghost[k]; ok {
-			return v.(*Term)
-		}
-		v := r.input(8)
-		r.addPC(ULe(v, BVu(2, 8)))
-		r.ghost[k] = v
-		return v
-	}
-	in["net.DialTimeout"] = func(r *Run, fr *Frame, cc *ssa.CallCommon, a []Value) Value {
+	conn := func(v Value) *connObj { return v.(*PtrV).obj.val.(*connObj) }
+	ns(rtPkg+".Endpoint", func(r *Run, fr *Frame, cc *ssa.CallCommon, a []Value) Value {
+		i := r.concretise(a[0].(*Term), "endpoint index")
+		addr := fmt.Sprintf("k%d:88", i)
+		r.endpoint(addr)
+		return concStr(addr)
+	})
+	ns(rtPkg+".EndpointAnswers", func(r *Run, fr *Frame, cc *ssa.CallCommon, a []Value) Value {
+		ep := r.endpoint(fmt.Sprintf("k%d:88", r.concretise(a[0].(*Term), "endpoint index")))
+		return Ite(a[1].(*Term), Eq(ep.tcpBeh, BVu(0, 8)), Eq(ep.udpBeh, BVu(0, 8)))
+	})
+	ns("net.DialTimeout", func(r *Run, fr *Frame, cc *ssa.CallCommon, a []Value) Value {
 		network, _ := a[0].(*StrV).Concrete()
 		addr, ok := a[1].(*StrV).Concrete()
 		if !ok {
 			endPath("engine", "symbolic dial address")
 		}
 		r.ghostLog("dials", concStr(network+":"+addr))
-		beh := behOf(r, network, addr)
-		if r.branch(Eq(beh, BVu(1, 8))) {
-			return TupleV{&IfaceV{}, errv(r, fr, "connection refused")}
+		ep := r.endpoint(addr)
+		tcp := network == "tcp"
+		beh := ep.udpBeh
+		if tcp {
+			beh = ep.tcpBeh
+			if r.branch(Eq(beh, BVu(1, 8))) {
+				return TupleV{&IfaceV{}, r.errNew(fr, "dial tcp: connection refused")}
+			}
 		}
-		tn := "TCPConn"
-		if network == "udp" {
-			tn = "UDPConn"
+		tn := "UDPConn"
+		if tcp {
+			tn = "TCPConn"
 		}
-		o := r.newObj(types.Typ[types.Int], StructV{&connObj{beh: beh}}, "conn")
+		o := r.newObj(types.Typ[types.Int], &connObj{tcp: tcp, addr: addr, beh: beh, reply: ep.reply, hdr: ep.hdr}, "conn")
 		return TupleV{&IfaceV{t: netT(r, tn), v: &PtrV{obj: o}}, &IfaceV{}}
-	}
-	conn := func(v Value) *connObj { return v.(*PtrV).obj.val.(StructV)[0].(*connObj) }
-	reply := func(r *Run, c *connObj) []*Term {
-		if r.branch(Eq(c.beh, BVu(3, 8))) {
-			return []*Term{BVu('E', 8), BVu('R', 8)}
-		}
-		return []*Term{BVu('O', 8), BVu('K', 8)}
-	}
+	})
 	for _, t := range []string{"TCPConn", "UDPConn", "conn"} {
-		in["(*net."+t+").SetDeadline"] = func(r *Run, fr *Frame, cc *ssa.CallCommon, a []Value) Value { return &IfaceV{} }
-		in["(*net."+t+").Close"] = func(r *Run, fr *Frame, cc *ssa.CallCommon, a []Value) Value { return &IfaceV{} }
-		in["(*net."+t+").Write"] = func(r *Run, fr *Frame, cc *ssa.CallCommon, a []Value) Value {
+		ns("(*net."+t+").SetDeadline", func(r *Run, fr *Frame, cc *ssa.CallCommon, a []Value) Value { return &IfaceV{} })
+		ns("(*net."+t+").Close", func(r *Run, fr *Frame, cc *ssa.CallCommon, a []Value) Value { return &IfaceV{} })
+		ns("(*net."+t+").Write", func(r *Run, fr *Frame, cc *ssa.CallCommon, a []Value) Value {
 			return TupleV{BVi(int64(a[1].(*SliceV).len), 64), &IfaceV{}}
-		}
-		in["(*net."+t+").RemoteAddr"] = func(r *Run, fr *Frame, cc *ssa.CallCommon, a []Value) Value {
+		})
+		ns("(*net."+t+").RemoteAddr", func(r *Run, fr *Frame, cc *ssa.CallCommon, a []Value) Value {
 			return &IfaceV{t: addrType, v: BVi(0, 64)}
-		}
+		})
 	}
-	in["gosym.Addr.String"] = func(r *Run, fr *Frame, cc *ssa.CallCommon, a []Value) Value { return concStr("peer") }
-	in["(*net.conn).Read"] = func(r *Run, fr *Frame, cc *ssa.CallCommon, a []Value) Value {
+	e.intrinsics["gosym.Addr.String"] = func(r *Run, fr *Frame, cc *ssa.CallCommon, a []Value) Value { return concStr("peer") }
+	// TCP: first read delivers the 4-byte header, later reads the body (short when the peer closes mid-body)
+	tcpRead := func(r *Run, fr *Frame, cc *ssa.CallCommon, a []Value) Value {
 		c := conn(a[0])
 		buf := a[1].(*SliceV)
 		if r.branch(Eq(c.beh, BVu(2, 8))) {
-			return TupleV{BVi(0, 64), errv(r, fr, "read: connection reset")}
+			return TupleV{BVi(0, 64), r.errNew(fr, "read: connection reset by peer")}
 		}
 		c.reads++
 		var data []*Term
 		if c.reads == 1 {
-			data = []*Term{BVu(0, 8), BVu(0, 8), BVu(0, 8), BVu(2, 8)}
+			data = c.hdr
+		} else if c.reads == 2 {
+			data = c.reply
+			if r.branch(Eq(c.beh, BVu(3, 8))) {
+				data = c.reply[:1] // only part of the announced bytes arrives, then the peer closes
+			}
 		} else {
-			data = reply(r, c)
+			return TupleV{BVi(0, 64), r.eofError(fr)}
+		}
+		if c.reads == 2 && buf.len < len(data) {
+			c.reads-- // the rest is delivered by the next read
 		}
 		n := len(data)
 		if buf.len < n {
@@ -94,39 +158,29 @@ func (e *Engine) registerNet() {
 		}
 		return TupleV{BVi(int64(n), 64), &IfaceV{}}
 	}
-	in["(*net.UDPConn).ReadFrom"] = func(r *Run, fr *Frame, cc *ssa.CallCommon, a []Value) Value {
+	ns("(*net.conn).Read", tcpRead)
+	ns("(*net.TCPConn).Read", tcpRead)
+	ns("(*net.UDPConn).ReadFrom", func(r *Run, fr *Frame, cc *ssa.CallCommon, a []Value) Value {
 		c := conn(a[0])
 		buf := a[1].(*SliceV)
-		if r.branch(Eq(c.beh, BVu(2, 8))) {
-			return TupleV{BVi(0, 64), &IfaceV{}, errv(r, fr, "read: timeout")}
+		if r.branch(Not(Eq(c.beh, BVu(0, 8)))) {
+			return TupleV{BVi(0, 64), &IfaceV{}, r.errNew(fr, "read udp: connection refused / i/o timeout")}
 		}
-		data := reply(r, c)
-		for i := range data {
-			elemsOf(buf)[buf.off+i] = data[i]
+		for i := range c.reply {
+			elemsOf(buf)[buf.off+i] = c.reply[i]
 		}
-		return TupleV{BVi(int64(len(data)), 64), &IfaceV{}, &IfaceV{}}
-	}
-	in["(*github.com/jcmturner/gokrb5/v8/messages.KRBError).Unmarshal"] = func(r *Run, fr *Frame, cc *ssa.CallCommon, a []Value) Value {
-		b := a[1].(*SliceV)
-		if b.len == 2 {
-			if t, ok := elemsOf(b)[b.off].(*Term); ok && t.IsConst() && t.Uint() == 'E' {
-				return &IfaceV{}
-			}
-		}
-		return errv(r, fr, "not a KRB-ERROR")
-	}
-	in[rtPkg+".GhostByte"] = func(r *Run, fr *Frame, cc *ssa.CallCommon, a []Value) Value {
-		k, _ := a[0].(*StrV).Concrete()
-		if v, ok := r.ghost[k]; ok {
-			return v
-		}
-		return BVu(255, 8)
-	}
-	in[rtPkg+".GhostCount"] = func(r *Run, fr *Frame, cc *ssa.CallCommon, a []Value) Value {
-		k, _ := a[0].(*StrV).Concrete()
-		if v, ok := r.ghost[k]; ok {
-			return BVi(int64(len(v.([]Value))), 64)
-		}
-		return BVi(0, 64)
-	}
+		return TupleV{BVi(int64(len(c.reply)), 64), &IfaceV{}, &IfaceV{}}
+	})
+	// deadlines are computed from the wall clock; its value does not matter to the stubs
+	ns("time.Now", func(r *Run, fr *Frame, cc *ssa.CallCommon, a []Value) Value {
+		return StructV{BVu(0, 64), BVi(63800000000, 64), &PtrV{}}
+	})
 }
+
+// eofError returns io.EOF (the package-level error value).
+func (r *Run) eofError(fr *Frame) Value {
+	g := r.eng.prog.ImportedPackage("io").Var("EOF")
+	return r.load(&PtrV{obj: r.global(g)}, lbl("io.EOF"))
+}
+
+var addrType = fakeNamed("Addr")
